@@ -116,6 +116,12 @@ var (
 	coverMemo = map[int][]sweepBase{}
 )
 
+// sweepVariant post-processes a mutant tree (after the single edit); nil = the edit alone.
+type sweepVariant struct {
+	Name  string
+	Apply func(v *gen.CertView) bool
+}
+
 // homeSweep enumerates the mutants (this shard's share, partitioned by (base,
 // leaf)) and hands each run to judge. A non-empty message is reported under
 // oracle; the function returns after the first unlisted violation.
@@ -123,21 +129,35 @@ func homeSweep(rec *stats.Rec, K int, withExp bool, oracle string, judge func(c 
 	gen.OIDFamilyMode = !stats.Thorough()
 	defer func() { gen.OIDFamilyMode = false }()
 	cover := homeCover(K)
-	unit, cases, parsed := 0, int64(0), int64(0)
 	lintsCovered := map[string]bool{}
 	for _, b := range cover {
 		for _, n := range b.Lints {
 			lintsCovered[n] = true
 		}
+	}
+	sweepBases(rec, cover, nil, withExp, oracle, judge, onViolation)
+	rec.Note("homesweep", fmt.Sprintf("K=%d: %d base objects cover %d lints; every (leaf x type-aware edit) mutant enumerated", K, len(cover), len(lintsCovered)))
+	rec.Exhaustive("home-sweep", true)
+}
+
+// sweepBases: every (leaf x type-aware edit) mutant of every base, linted with the
+// base's lints; certificates additionally in every extra variant.
+func sweepBases(rec *stats.Rec, cover []sweepBase, extra []sweepVariant, withExp bool, oracle string, judge func(c engine.Case, run *engine.Run) (string, string), onViolation func(string)) {
+	unit, cases, parsed := 0, int64(0), int64(0)
+	for _, b := range cover {
 		root, err := dt.Parse(b.Obj.DER)
 		if err != nil {
 			continue
 		}
-		selfSigned := false
+		// a self-signed base gives two mutants per edit: the edit alone (the parser then
+		// sees a certificate that is no longer self-signed - and algorithm / key edits
+		// survive) and the edit followed by re-signing (stays a root).
+		variants := []sweepVariant{{Name: ""}}
 		if b.Obj.Kind == gen.Cert {
 			if pc, ok := gen.ParseCert(b.Obj.DER); ok && pc.SelfSigned {
-				selfSigned = true
+				variants = append(variants, sweepVariant{"selfsign", func(v *gen.CertView) bool { v.SelfSign(); return true }})
 			}
+			variants = append(variants, extra...)
 		}
 		filters := []engine.FilterSpec{{IncludeNames: b.Lints}}
 		reg, cfg, restore, err := engine.BuildRegistry(engine.Case{Filters: filters})
@@ -153,25 +173,18 @@ func homeSweep(rec *stats.Rec, K int, withExp bool, oracle string, judge func(c 
 			}
 			ne := gen.LeafEditCount(root.Leaves()[li])
 			for e := 0; e < ne; e++ {
-				// a self-signed base gives two mutants: the edit alone (the parser then sees a
-				// certificate that is no longer self-signed - and algorithm / key edits survive)
-				// and the edit followed by re-signing (stays a root).
-				for variant := 0; variant < 2; variant++ {
-					if variant == 1 && !selfSigned {
-						break
-					}
+				for _, vr := range variants {
 					m := root.Clone()
 					op := gen.ApplyLeafEdit(m.Leaves()[li], e)
-					if variant == 1 {
-						if v, err := gen.ViewCertTree(m); err == nil {
-							v.SelfSign()
-							op += "+selfsign"
-						} else {
-							break
+					if vr.Apply != nil {
+						v, err := gen.ViewCertTree(m)
+						if err != nil || !vr.Apply(v) {
+							continue
 						}
+						op += "+" + vr.Name
 					}
 					c := engine.Case{Kind: b.Obj.Kind, DER: m.Encode(), Base: b.Obj.Name, Filters: filters,
-						Ops: []string{fmt.Sprintf("home-sweep leaf=%d edit=%d(%s)", li, e, op)}}
+						Ops: []string{fmt.Sprintf("sweep leaf=%d edit=%d(%s)", li, e, op)}}
 					run := engine.ExecuteReg(c, reg, cfg, withExp)
 					cases++
 					rec.Eval()
@@ -180,7 +193,7 @@ func homeSweep(rec *stats.Rec, K int, withExp bool, oracle string, judge func(c 
 					}
 					if sig, msg := judge(c, run); msg != "" {
 						if rec.Report(oracle, sig, msg, c) {
-							onViolation(fmt.Sprintf("%s home sweep %s leaf=%d edit=%d(%s): %s: %s", oracle, b.Obj.Name, li, e, op, sig, msg))
+							onViolation(fmt.Sprintf("%s sweep %s leaf=%d edit=%d(%s): %s: %s", oracle, b.Obj.Name, li, e, op, sig, msg))
 							return
 						}
 					}
@@ -188,10 +201,8 @@ func homeSweep(rec *stats.Rec, K int, withExp bool, oracle string, judge func(c 
 			}
 		}
 	}
-	rec.ClassN("homesweep_cases", cases)
-	rec.ClassN("homesweep_parsed", parsed)
-	rec.Note("homesweep", fmt.Sprintf("K=%d: %d base objects cover %d lints; every (leaf x type-aware edit) mutant enumerated", K, len(cover), len(lintsCovered)))
-	rec.Exhaustive("home-sweep", true)
+	rec.ClassN("sweep_cases", cases)
+	rec.ClassN("sweep_parsed", parsed)
 }
 
 func genLeafCount(n *dt.Node) int { return gen.LeafEditCount(n) }
